@@ -116,9 +116,18 @@ PROPS["C08"] = dict(
 )
 
 PROPS["C10"] = dict(
-    contracts=["http2"],
-    trusted_base=COMMON_TRUSTED, assumptions=[], not_decided=[],
-    level_text="x", level_note="x",
+    contracts=["http2"], bounded=["c10", "c11"], level="other", trusted_base=COMMON_TRUSTED,
+    assumptions=["http.client validates the request target (no CTL/SP) and header names/values (no CR/LF except the obs-fold forms) and buffers the head until endheaders (assumed; exercised by the bounded wire check)",
+                 "a strict independent request parser defines 'exactly one request'; obs-fold continuation lines and a bare CR before SP/HT inside a value are tolerated (they add no header line)"],
+    not_decided=["HTTPConnection.request / putrequest / putheader are not yet under the VC generator (ghost wire events designed in DESIGN section 5 C10): decided by the bounded wire check only",
+                 "at connection level the caller passes the request target itself: fragment dropping / percent-encoding are checked at pool and manager level"],
+    explanation="Two parts. (1) PROVED (regex language obligations over the patterns read from the running module): HTTP/2 _is_legal_header_name accepts exactly the lower-case token language (fixed defect D4: a trailing newline was accepted) "
+                "and _is_illegal_header_value rejects exactly values with NUL/CR/LF anywhere or leading/trailing SP/HT. (2) BOUNDED: what reaches sendall() on an in-memory socket, parsed by a strict independent parser, for methods / URLs / "
+                "header names / values built from 17 hostile fragments and all their pairs through three entry points; the automatic Host / Accept-Encoding / User-Agent lines for every supply/suppress combination; the percent-encoder for every "
+                "single character and fragment pair.",
+    level_text="Partial proof (HTTP/2 header validity as regular-language obligations) + bounded wire-level contract check through the real request path (complete for the stated fragment alphabet; not a proof).",
+    level_note="Fixed: D4. Bounded part labelled bounded.",
+    technique="contract-based deductive verification (regex language inclusion, z3) + bounded strict parse of the emitted bytes on an in-memory socket",
 )
 
 _POOLS = ["stdlib", "util_timeout", "util_retry", "util_url", "connectionpool", "poolmanager_urlopen"]
@@ -203,4 +212,16 @@ PROPS["C20"] = dict(
     level_text="Partial proof (the escaping equation) + bounded strict parse-back of the real encoder (complete for names/filenames up to the stated length; not a proof).",
     level_note="Bounded part labelled bounded.",
     technique="contract-based deductive verification (string VC, z3) for the escaping rule + bounded strict parse-back of the real multipart encoder",
+)
+
+PROPS["C11"] = dict(
+    contracts=["stdlib", "util_timeout", "util_retry", "util_url", "connectionpool"], bounded=["c11"], level="other", trusted_base=COMMON_TRUSTED,
+    assumptions=["connection boundary contracts (see C01)"],
+    not_decided=["the framing decision table of HTTPConnection.request and body_to_chunks are decided by the bounded wire check only (not yet under the VC generator)"],
+    explanation="Two parts. (1) PROVED over the real HTTPConnectionPool.urlopen: every recursion (retry after error, redirect, status retry) passes on the caller's settings unchanged (site obligation settings-carried-through-every-recursion, which includes body_pos handling "
+                "being threaded through the same calls). (2) BOUNDED: 10 body kinds x sizes around the block size x 6 methods x chunked flag: exactly one framing header and framed payload == body bytes; 9 body kinds x 9 attempt histories: every re-sent body "
+                "byte-identical or UnrewindableBodyError.",
+    level_text="Bounded wire-level contract check (exhaustive over the stated body kinds / sizes / histories) + the recursion-settings site obligation of urlopen; not a proof of the framing table.",
+    level_note="Known findings D8 (one-shot iterators re-sent empty) and D20 (chunked + wide-item buffer) reported as KNOWN-FINDING. Fixed: D21.",
+    technique="bounded strict parse of the emitted bytes on an in-memory socket + one deductive site obligation on the real urlopen",
 )
